@@ -36,9 +36,9 @@ CHECKS = {
  "C16": ("model_checking", "tier index machine explored by BFS to a fixpoint (all answer vectors, up to 2-4 concurrent calls interleaved at every point); every announce answer sequence up to the bound on the real PeriodicalAnnouncer under virtual time; the real UDP transport with 2-3 concurrent requests under every cancel/reply/expiry order; HTTP and UDP reply byte lattices",
          "announcer back-off jitter bounded not pinned; at most 3 requests per UDP destination; no DNS", "explicit-state BFS to fixpoint + exhaustive operation-sequence enumeration on the real actors under virtual time (synctest)", "actorlab", "3/C16"),
  "C17": ("model_checking", "ResourceManager: BFS with state merging over every request/cancel/notify/release/stats/close order of 2-3 clients under synctest quiescence (no caller may stay blocked); piece cache, semaphore, address list, peer-writer upload queue and piece-downloader pipeline: every operation sequence up to the stated depth against counting models",
-         "one stimulus at a time at the manager; session-level caps (connections, rate limits) are not part of this component-level check", "explicit-state BFS / exhaustive operation sequences on the real components under virtual time", "actorlab", "3/C17"),
+         "one stimulus at a time at the manager; session level (looplab): every history of <= depth connection/dial operations for MaxPeerAccept/MaxPeerDial/MaxRequestsOut in {1,2}: caps on the client's counters and on the sockets it has not closed, failed handshakes closed; global rate limits only at component level", "explicit-state BFS / exhaustive operation sequences on the real components under virtual time", "actorlab", "3/C17"),
  "C18": ("model_checking", "interval tree vs linear scan for every list of <=4(5) intervals over two endpoint lattices and every query point; Blocklist for every list of <=3 lines of a 49-line universe and every Reload sequence; AddrList for every push/pop/reset sequence up to depth 6(7) against a reference bounded priority set; resolver on blocked literals",
-         "peerpriority.Calculate taken as given; eviction rule modelled as implemented; session-level dial admission is checked separately (looplab)", ENUM, "enum", "3/C18"),
+         "peerpriority.Calculate taken as given; eviction rule modelled as implemented; session level (looplab): forbidden addresses (blocked, own, port 0, connected/handshaking IP, banned) never appear in the dial log, blocked/banned incoming connections get no handshake reply", ENUM, "enum", "3/C18"),
  "C08": ("model_checking", "torrent in each state {metadata unknown, allocating, verifying, downloading, seeding} x every sequence of <= depth attacker messages over 42 hostile but well-framed messages, under both extreme resolutions of racing selects; crash/hang oracles in every state and completion of the honest peer's exchange afterwards",
          "byte-level framing attacks are the reader-level part; one attacker and one honest peer", MC, "looplab", "3/C08"),
  "C09": ("model_checking", "explicit-state BFS with state dedup over the real piece picker driven within the torrent's call contract (connect, have, bitfield, allowed-fast, choke, unchoke, snub, disconnect, pick, block completion, write ok, hash failure, web-seed pick/progress/steal/error) for 1-3 peers, 3-4 pieces, 0-2 web seeds, rarest/sequential, end-game limit 1-2; shadow-matrix oracles after every operation; to a fixpoint where the space closes, else to a stated state cap",
